@@ -105,6 +105,8 @@ func RunWorker(a WorkerArgs) int {
 		hashW = bufio.NewWriter(f)
 		defer hashW.Flush()
 	}
+	StartWatchdog(filepath.Join(a.OutDir, fmt.Sprintf("w%d.hung", a.K)), HangCPULimit(20*time.Second))
+	defer WatchdogIdle()
 	inflight := filepath.Join(a.OutDir, fmt.Sprintf("w%d.inflight", a.K))
 	racing := filepath.Join(a.OutDir, fmt.Sprintf("w%d.racing", a.K))
 	smallest := -1
@@ -132,7 +134,9 @@ func RunWorker(a WorkerArgs) int {
 			_ = os.WriteFile(racing, raw, 0o644)
 		}
 		log := NewLog(false)
+		WatchdogArm(raw)
 		res, err := SafeExecute(p, sc, a.Phase, log)
+		WatchdogIdle()
 		if err != nil {
 			out.InfraError = fmt.Sprintf("run %d: %v\nscenario: %s", i, err, raw)
 			break
